@@ -80,8 +80,10 @@ package peering
 //@   invariant maps [C13]: self.links != nil && self.linksByLabel != nil
 
 //@ func Peering.GetLink
+//@   modifies nothing
 //@   ensures found-is-registered [C16]: result != nil ==> nonnil(result) && result.peer == ip
 //@ func Peering.GetLinkByLabel
+//@   modifies nothing
 //@   ensures found-is-registered [C16]: result != nil ==> nonnil(result) && result.switchLabel == label
 
 //@ func Peering.AddLink
